@@ -100,6 +100,11 @@ CHECKS = {
    technique="stateless exploration of all interleavings (preemption bound 2/3) of every unordered pair of 28 operations on shared objects under a cooperative scheduler, with scheduling points inserted by overlay rewriting at every accessor of shared mutable state and at every sync operation (sync shim with modelled lock waits); plus exhaustive write-footprint analysis of each operation (deep fingerprints of shared objects and package-level state) and a separate free-running -race pass over all pairs",
    text="(a) every schedule within the bound of every operation pair: each goroutine's result equals its result alone, no panic, no deadlock; (b) no operation on shared objects, run alone, changes any shared object or package-level mutable state unless it synchronises; (c) the race detector reports nothing on any pair with 2 and 8 goroutines.",
    note="Interleavings are explored at hook granularity (accessors of TypeSystem, Registry, Config/Progress init, lazy store initialisers, inferSchema, sync operations), not at every memory access; (b) sees persistent writes only; (c) is a free-running happens-before detector, used as the brief prescribes for unsynchronised accesses. Memory-model effects are not modelled. Known finding: reader-backed bytes nodes."),
+ "C10": dict(
+   category="model_checking", design_ref="DESIGN.md §5 C10",
+   technique="exhaustive enumeration of short inputs over structural alphabets for every decoder under a lattice of configurations (depth limit × allocation budget × strict/relaxed × prealloc cap × links × stream mode × target prototype), depth bombs through a depth-observing assembler proxy, systematic hostile claimed lengths in an address-space-limited single-goroutine worker with allocation accounting, exhaustive small selector-spec trees compiled and walked, and every short path string",
+   text="Every input of the bounded spaces must yield a result or an error without panicking, within the watchdog and the address-space limit; observed nesting never exceeds MaxDepth and the limit is exact; TotalAlloc stays below 512·(budget+len)+256 KiB whatever length a head claims; every selector that compiles is walked to completion over every small graph; path parsing never panics.",
+   note="Typed assemblers as decode targets are exercised by C09's dag-cbor route. The allocation bound constants are generous (observed worst ratio ≈ 0.02): they catch claimed-length-driven allocation, not small constant-factor changes."),
 }
 
 NOT_YET = "check not built yet in this round (planned in DESIGN.md §5; will be claimed when its explorer exists)"
